@@ -261,6 +261,8 @@ func cmdRun(argv []string) int {
 	out := fs.String("out", "", "write the JSON result here (default stdout)")
 	seed := fs.Int64("seed", 1, "sampling seed")
 	maxPaths := fs.Int("maxpaths", 200000, "give up (inconclusive) after this many paths")
+	fs.IntVar(&shardBits, "shardbits", 0, "split the path tree on its first N two-sided forks")
+	fs.IntVar(&shardID, "shard", 0, "which of the 2^shardbits subtrees this process explores")
 	fs.Parse(argv[2:])
 	res := runHarness(pkgDir, harness, *loop, *nval, *seed, *maxPaths)
 	b, _ := json.MarshalIndent(res, "", " ")
@@ -339,7 +341,7 @@ func runHarness(pkgDir, harness string, loopBound, nval int, seed int64, maxPath
 		return
 	}
 	e := &Engine{Reach: map[string]int{}, loopBound: loopBound, funcs: map[string]bool{}, models: map[string]bool{}, havoc: map[string]bool{}, bounds: map[string]bool{}, asserts: map[string]int{}}
-	work := [][]bool{{}}
+	work := [][]decision{{}}
 	var totalT time.Duration
 	var validations []validation
 	rng := rand.New(rand.NewSource(seed))
@@ -377,6 +379,10 @@ func runHarness(pkgDir, harness string, loopBound, nval int, seed int64, maxPath
 			e.call(hp.Func("init"), nil, nil)
 			reachBefore := len(e.ReachLog)
 			e.call(f, nil, nil)
+			if !e.ownsPath() {
+				res.Ends["other-shard"]++
+				return
+			}
 			res.Ends["completed"]++
 			res.Completed++
 			if nval > 0 && e.S.Check() == "sat" {
